@@ -382,7 +382,7 @@ func closureStatesBounded(run *report.Run, check string, cfg *world.Config) [][]
 		filtered = append(filtered, op)
 	}
 	maxStates := int64(40000)
-	e := &explore.Explorer{Cfg: &c2, Ops: filtered, Mon: explore.NopMonitor{}, Reduced: true, KeepHists: true, MaxStates: maxStates}
+	e := &explore.Explorer{Cfg: &c2, Ops: filtered, Mon: explore.NopMonitor{}, Reduced: true, KeepHists: true, MaxStates: maxStates, MaxDepth: c2.MaxDepth}
 	if !world.HookAvailable {
 		e.MaxDepth = 2
 	}
@@ -391,7 +391,7 @@ func closureStatesBounded(run *report.Run, check string, cfg *world.Config) [][]
 		run.HarnessError("%s: %v", cfg.Name, e.HarnessErr)
 		return nil
 	}
-	if !e.Exhaustive {
+	if !e.Exhaustive && !e.BoundDone {
 		run.Extra["bases_capped:"+cfg.Name] = fmt.Sprintf("base set is the BFS prefix of %d states (depth %d), not the closure", e.States, e.Depth)
 	}
 	return e.Hists
